@@ -103,7 +103,7 @@ class RunCtx(object):
         self.events.append(ev)
 
     def cover(self, key):
-        self.covers.add(key)
+        self.covers.add(key if isinstance(key, str) else repr(key))
 
     def fault(self, kind, n=1):
         self.faults[kind] = self.faults.get(kind, 0) + n
